@@ -1,5 +1,9 @@
 import Ivg.Lemmas.Decoder2
-import Ivg.Gen.Tie
+import Ivg.Gen.Tie.DefaultViewBox
+import Ivg.Gen.Tie.DrawOps
+import Ivg.Gen.Tie.DecodeErrors
+import Ivg.Gen.Tie.Magic
+import Ivg.Gen.Tie.Mids
 import Ivg.Obligations
 /-!
 # C13 — metadata: what Reset receives, what is rejected, and metadata-only decoding
@@ -303,5 +307,5 @@ end Ivg.Props.C13
   Ivg.Props.C13.palette_length_rejected,
   Ivg.Props.C13.metadata_only_ok_iff, Ivg.Props.C13.metadata_only_error_same,
   Ivg.Props.C13.metadata_only_same, Ivg.Props.C13.metadata_only_no_calls,
-  Ivg.Gen.Tie.drawOps_tie, Ivg.Gen.Tie.magic_tie, Ivg.Gen.Tie.errorStrings_tie,
+  Ivg.Gen.Tie.drawOps_tie, Ivg.Gen.Tie.magic_tie, Ivg.Gen.Tie.decodeErrors_tie,
   Ivg.Gen.Tie.defaultViewBox_tie, Ivg.Gen.Tie.mids_tie]
